@@ -195,7 +195,21 @@ def unsupported_job() -> list[dict[str, Any]]:
     def rev_scan(x):
         return lax.scan(lambda c, e: (c + e, c), jnp.float32(0.0), x, reverse=True)[1]
 
+    # variants of one construct the converter cannot represent (J2O_ControlFlow: reverse scans have no wiring):
+    # with / without scanned inputs, stacked outputs that depend on the carry, nested in a conditional
+    def rev_scan_counted(x):
+        return lax.scan(lambda c, _: (c * 2.0 + 1.0, c), x[0], None, length=4, reverse=True)
+
+    def rev_scan_counted_in_cond(x):
+        return lax.cond(x[0] > -100.0, lambda v: lax.scan(lambda c, _: (c + 1.0, c * 3.0), v[0], None, length=3, reverse=True)[1], lambda v: v * 0.0, x)
+
+    def rev_scan_two_outputs(x):
+        return lax.scan(lambda c, e: (c + e, (c, e * 2.0)), jnp.float32(1.0), x, reverse=True)
+
     cases = {
+        "reverse_scan_counted/top": (rev_scan_counted, [(3,)]),
+        "reverse_scan_counted/cond_branch": (rev_scan_counted_in_cond, [(3,)]),
+        "reverse_scan_two_outputs/top": (rev_scan_two_outputs, [(3,)]),
         "unregistered_primitive/top": (lambda x: U.bind(x) + 1, [(3,)]),
         "unregistered_primitive/loop_body": (in_loop(lambda s: U.bind(s)), [(3,)]),
         "unregistered_primitive/function_body": (lambda x: userfns.inner_unsupported(x), [(3,)]),
